@@ -405,6 +405,25 @@ class GraphExporter:
             cont = x._container
             if isinstance(cont, DictOfNamedArrays):
                 nd = {"kind": "alias", "a": self._r(cont._data[x.name])}
+            elif type(cont).__name__ == "LoopyCall":
+                # a result of a call to a loopy kernel: an UNINTERPRETED function
+                # (identified by the kernel and the result's name) of all bound
+                # arguments, in the order of their names
+                knl = cont.translation_unit[cont.entrypoint]
+                ident = json.dumps([
+                    knl.name,
+                    sorted((a.name, str(getattr(a, "shape", None)), str(a.dtype),
+                            bool(getattr(a, "is_output", False))) for a in knl.args),
+                    sorted(str(i.assignees) + "=" + str(i.expression)
+                           for i in knl.instructions),
+                    sorted(str(d) for d in knl.domains)])
+                kid = int(hashlib.sha256(ident.encode()).hexdigest()[:8], 16) % 1000
+                outs = sorted(a.name for a in knl.args if getattr(a, "is_output", False))
+                args = []
+                for _k, v in sorted(cont.bindings.items()):
+                    args.append({"n": self._r(v)} if isinstance(v, Array) else {"c": const(v)})
+                nd = {"kind": "lpres", "knl": kid, "res": outs.index(x.name) + 1,
+                      "args": args}
             else:
                 raise Unsupported(f"named array of {type(cont).__name__}")
         elif isinstance(x, DistributedSendRefHolder):
